@@ -951,6 +951,32 @@ theorem T_C08_arc3_translation_real (pS pB pE t : Vec ℝ) :
   unfold arc3LengthR arc3LengthAt
   rw [hc, hs, hs, hs]
 
+/-- **The reported length does not depend on the orientation of the arc in space** (over ℝ): under any linear isometry `Q` (rotation,
+    reflection) applied to the three points the computed centre is mapped by `Q` and `arc_length_3point` is unchanged — the centre and the
+    side test are functions of dot products of differences only.  With `T_C08_arc3_translation_real`: the length depends only on the
+    circle and the position of the points on it, not on where or how the circle lies in space. -/
+theorem T_C08_arc3_isometry_real (Q : Vec ℝ → Vec ℝ) (hQ : LinIso Q) (pS pB pE : Vec ℝ) :
+    arc3Centre (Q pS) (Q pB) (Q pE) = Q (arc3Centre pS pB pE) ∧
+    arc3LengthR (Q pS) (Q pB) (Q pE) = arc3LengthR pS pB pE := by
+  have hn : ∀ v, nsq (Q v) = nsq v := fun v => hQ.map_dot v v
+  have hden : arc3Denom (Q pS) (Q pB) (Q pE) = arc3Denom pS pB pE := by
+    unfold arc3Denom
+    simp only [← hQ.map_sub, hn, hQ.map_dot]
+  have hc : arc3Centre (Q pS) (Q pB) (Q pE) = Q (arc3Centre pS pB pE) := by
+    rw [arc3Centre_dotform, arc3Centre_dotform, hden]
+    simp only [← hQ.map_sub, hn, hQ.map_dot]
+    simp only [hQ.map_add, hQ.map_smul, hQ.map_sub]
+  refine ⟨hc, ?_⟩
+  unfold arc3LengthR arc3LengthAt arc3AngleR
+  rw [hc]
+  simp only [arc3SideTest_dotform, ← hQ.map_sub, hn, hQ.map_dot]
+
+/-- non-vacuity: the quarter turn about the z-axis and the reflection in the x-y plane are linear isometries -/
+example : LinIso (fun v : Vec ℝ => ⟨-v.y, v.x, v.z⟩) ∧ LinIso (fun v : Vec ℝ => ⟨v.x, v.y, -v.z⟩) := by
+  constructor <;> constructor <;> intros <;> first
+    | (apply Vec.ext' <;> simp only [add, sub, smul] <;> ring)
+    | (simp only [dot]; ring)
+
 /-! ### round 6: tie to the source text (tables regenerated by `cbv/tables/c08.py` with `ast` on every run)
 
 The translator normalises the source first: docstrings, comments, annotations dropped, parameters (other than `self`) and locals
